@@ -320,3 +320,50 @@ VARIANTS["C12"] = [
     V("lf-meta-count", "fire", NP, [("            meta_shank[\"snsApLfSy\"][1] = n_chns - 1\n", "            meta_shank[\"snsApLfSy\"][1] = n_chns\n")], ("D3",), ""),
     V("twin-ratio-local", "twin", NP, [("        chunk = chunk[:, :: self.ratio]\n        return chunk\n", "        out = chunk[:, :: self.ratio]\n        return out\n")], (), ""),
 ]
+
+# ------------------------------------------------------------------------------------------------ C11
+VARIANTS["C11"] = [
+    V("real-quotient-restored", "fire", SG, [(
+        "                ftsec = (\n                    self.file_bin.stat().st_size // (self.dtype.itemsize * self.nc)\n                ) / self.fs\n",
+        "                ftsec = self.file_bin.stat().st_size / self.dtype.itemsize / self.nc / self.fs\n")], ("D1",), "regression of the F7 repair"),
+    V("frames-rounded", "fire", SG, [(
+        "self.file_bin.stat().st_size // (self.dtype.itemsize * self.nc)\n                ) / self.fs", "round(self.file_bin.stat().st_size / (self.dtype.itemsize * self.nc))\n                ) / self.fs")], ("D1",), ""),
+    V("online-ns-rounds", "fire", SG, [(
+        "        return int(self.file_bin.stat().st_size / self.dtype.itemsize / self.nc)\n", "        return int(np.round(self.file_bin.stat().st_size / self.dtype.itemsize / self.nc))\n")], ("D1",), ""),
+    V("mismatch-only-shorter", "fire", SG, [(
+        "            if self.nc * self.ns * self.dtype.itemsize != self.nbytes:", "            if self.nc * self.ns * self.dtype.itemsize > self.nbytes:")], ("D2",),
+      "a file longer than announced (acquisition continued) is not re-measured"),
+    V("memmap-before-rewrite", "fire", SG, [(
+        "            if self.nc * self.ns * self.dtype.itemsize != self.nbytes:",
+        "            self._raw = np.memmap(\n                sglx_file, dtype=self.dtype, mode=\"r\", shape=(self.ns, self.nc)\n            )\n            if self.nc * self.ns * self.dtype.itemsize != self.nbytes:"), (
+        "                    self.meta[\"fileTimeSecs\"] = ftsec\n            self._raw = np.memmap(\n                sglx_file, dtype=self.dtype, mode=\"r\", shape=(self.ns, self.nc)\n            )\n",
+        "                    self.meta[\"fileTimeSecs\"] = ftsec\n")], ("D2",), ""),
+    V("ns-truncates", "fire", SG, [(
+        "        return int(np.round(self.meta.get(\"fileTimeSecs\") * self.fs))\n", "        return int(self.meta.get(\"fileTimeSecs\") * self.fs)\n")], ("D2",),
+      "n / fs * fs can be n - eps: one frame lost for some (n, fs)"),
+    V("twin-int-of-quotient", "twin", SG, [(
+        "self.file_bin.stat().st_size // (self.dtype.itemsize * self.nc)\n                ) / self.fs", "int(self.file_bin.stat().st_size / (self.dtype.itemsize * self.nc))\n                ) / self.fs")], (), ""),
+    V("twin-floor-nbytes", "twin", SG, [(
+        "self.file_bin.stat().st_size // (self.dtype.itemsize * self.nc)\n                ) / self.fs", "np.floor(self.nbytes / self.dtype.itemsize / self.nc)\n                ) / self.fs")], (), ""),
+]
+
+# ------------------------------------------------------------------------------------------------ C10
+VARIANTS["C10"] = [
+    V("roll-4", "fire", SG, [("    out = np.flip(np.roll(out, 8, axis=1), axis=1)\n", "    out = np.flip(np.roll(out, 4, axis=1), axis=1)\n")], ("D1",), ""),
+    V("flip-dropped", "fire", SG, [("    out = np.flip(np.roll(out, 8, axis=1), axis=1)\n", "    out = np.roll(out, 8, axis=1)\n")], ("D1",), ""),
+    V("roll-no-axis", "fire", SG, [("    out = np.flip(np.roll(out, 8, axis=1), axis=1)\n", "    out = np.flip(np.roll(out, 8), axis=1)\n")], ("D1",),
+      "flattened roll leaks bits into the neighbouring word; 17 test words with isolated bits do not show it"),
+    V("bitorder-little-kept-roll", "fire", SG, [("np.unpackbits(sync_tr.view(np.uint8))", "np.unpackbits(sync_tr.view(np.uint8), bitorder=\"little\")")], ("D1",), ""),
+    V("fronts-no-shift", "fire", UT, [("    sign = d[tuple(ind)]\n    ind[axis] += 1\n", "    sign = d[tuple(ind)]\n")], ("D2",), ""),
+    V("fronts-strict", "fire", UT, [("    ind = np.array(np.where(np.abs(d) >= step))\n", "    ind = np.array(np.where(np.abs(d) > step))\n")], ("D2",), ""),
+    V("fronts-sign-after-shift", "fire", UT, [("    sign = d[tuple(ind)]\n    ind[axis] += 1\n", "    ind[axis] += 1\n    sign = d[tuple(ind)]\n")], ("D2",), ""),
+    V("rises-shift-axis0", "fire", UT, [("    ind = np.array(np.where(np.diff(x, axis=axis) >= step))\n    ind[axis] += 1\n", "    ind = np.array(np.where(np.diff(x, axis=axis) >= step))\n    ind[0] += 1\n")],
+      ("D2",), "2-D input along the last axis gets its row index shifted"),
+    V("falls-step-not-negated", "fire", UT, [("    return rises(-x, axis=axis, step=-step, analog=analog)\n", "    return rises(-x, axis=axis, step=step, analog=analog)\n")], ("D2",), ""),
+    V("concat-analog-first", "fire", SG, [("        return np.concatenate((digital, np.int8(analog)), axis=1)\n", "        return np.concatenate((np.int8(analog), digital), axis=1)\n")], ("D3",), ""),
+    V("threshold-strict", "fire", SG, [("        analog[np.where(analog >= threshold)] = 1\n", "        analog[np.where(analog > threshold)] = 1\n")], ("D3",), ""),
+    V("twin-bitorder-little", "twin", SG, [(
+        "    out = np.unpackbits(sync_tr.view(np.uint8)).reshape(sync_tr.size, 16)\n    out = np.flip(np.roll(out, 8, axis=1), axis=1)\n",
+        "    out = np.unpackbits(sync_tr.view(np.uint8), bitorder=\"little\").reshape(sync_tr.size, 16)\n")], (), "LSB-first unpacking needs neither roll nor flip"),
+    V("twin-fliplr", "twin", SG, [("    out = np.flip(np.roll(out, 8, axis=1), axis=1)\n", "    out = np.fliplr(np.roll(out, 8, axis=1))\n")], (), ""),
+]
